@@ -11,10 +11,10 @@ vars == <<c, st, cfgv, last>>
 View == <<c, st, cfgv>>
 
 ConfigMsgs(k) ==
-  CASE k = "pm" -> {"fee_collector", "farm_manager", "pool_creation_fee", "toggle_swaps", "toggle_deposits", "toggle_withdrawals"}
+  CASE k = "pm" -> {"fee_collector", "farm_manager", "pool_creation_fee", "toggle_swaps", "toggle_deposits", "toggle_withdrawals", "nothing"}
     [] k = "fm" -> {"fee_collector", "epoch_manager", "pool_manager", "create_farm_fee", "max_concurrent_farms", "max_farm_epoch_buffer",
-                    "min_unlocking_duration", "max_unlocking_duration", "farm_expiration_time", "emergency_unlock_penalty"}
-    [] k = "em" -> {"epoch_config"}
+                    "min_unlocking_duration", "max_unlocking_duration", "farm_expiration_time", "emergency_unlock_penalty", "nothing"}
+    [] k = "em" -> {"epoch_config", "nothing"}        \* "nothing": the privileged message with every field left out
     [] k = "fc" -> {}
 Msgs(k) == {[kind |-> "config", what |-> w, to |-> "none", exp |-> "none"] : w \in ConfigMsgs(k)}
            \cup {[kind |-> "transfer", what |-> "transfer", to |-> t, exp |-> x] : t \in Proposable, x \in {"none", "future"}}
@@ -28,7 +28,7 @@ Init == /\ c \in Contracts
         /\ last = Pseudo("init")
 Send(sender, msg, funds) ==
   /\ st' = O!After(st, sender, msg, funds)
-  /\ cfgv' = IF O!Accepted(st, sender, msg, funds) /\ msg.kind = "config" THEN 1 ELSE cfgv   \* "config was changed at least once"
+  /\ cfgv' = IF O!Accepted(st, sender, msg, funds) /\ msg.kind = "config" /\ msg.what # "nothing" THEN 1 ELSE cfgv   \* "config was changed at least once"
   /\ last' = [msg |-> msg, sender |-> sender, funds |-> funds, ok |-> O!Accepted(st, sender, msg, funds)]
   /\ UNCHANGED c
 Tick == /\ st' = O!Expire(st) /\ st' # st /\ last' = Pseudo("tick") /\ UNCHANGED <<c, cfgv>>
